@@ -23,4 +23,16 @@ PROPS = {
         ops=[r'^$'],
         assumes=['model functions deleg/undeleg are tied to calculate_delegations/calculate_undelegations by the kernel streams of this run'],
     ),
+    'C17': dict(
+        props_file='Props/C17.v',
+        theorems=['C17_offer_le_held', 'C17_inv_hyp', 'C17_share_within_rounding', 'C17_dispatch_exact',
+                  'C17_dispatch_conserves', 'C17_dispatch_succeeds', 'C17_rate_le_one_init',
+                  'C17_rate_le_one_step', 'C17_no_zero_transfer', 'C17_known_F2_witness'],
+        kernels=['swapinfo'],
+        scenarios=['basic.ops'],
+        profiles=[],
+        keys=['m bank disp', 'm wasm disp', 'm wasm hub disp', 'dp.', 'bank disp', 'bank keeper'],
+        ops=[r'^disp ', r'^inst_disp', r'^hub \S+ updateglobal'],
+        assumes=['swap and oracle stubs of PROTOCOL.md section 4 (E7)', 'bank rejects zero-coin sends (E5)'],
+    ),
 }
